@@ -257,6 +257,13 @@ Definition finalize (f : frame_in) : frame_out :=
 Definition a64_realisable (f : frame_in) : bool :=
   negb (fin_has_da f) && ((qget (cc_srsize (fi_cc f)) 1 <=? 8) || (fin_saved f 1 =? 0)).
 
+(* the error decision of FuncFrame::finalize() as /repo HEAD makes it: kTooLarge (9) when call + local sizes exceed 0x7FFF0000
+   (a53b13c, checked first), kInvalidState (3) for an AArch64 frame the emitters cannot realise (fef32d9), kOk (0) otherwise *)
+Definition frame_size_limit : Z := 2147418112.
+Definition finalize_error (f : frame_in) : Z :=
+  if frame_size_limit <? fi_call_size f + fi_local_size f then 9
+  else match fi_arch f with A64 => if a64_realisable f then 0 else 3 | _ => 0 end.
+
 Definition saved_regs (f : frame_in) (o : frame_out) (g : Z) : Z :=
   Z.land (qget (fo_dirty o) g) (qget (cc_preserved (fi_cc f)) g).
 
